@@ -240,7 +240,11 @@ def exec_for(st, s):
         st.assume(kk < it.n)
         st.frames.append((targets, st.alloc))
         depth = len(st.frames) - 1
-        E.assign_target(st, s.target, it.item(kk))
+        itemv = it.item(kk)
+        for comp in (itemv.z if itemv.t.kind == 'xtuple' else (itemv,)):
+            if comp.t.kind not in ('xtuple', 'seq', 'fn', 'typeobj', 'iter'):
+                st.assume_type(comp)
+        E.assign_target(st, s.target, itemv)
         try:
             try:
                 E.exec_block(st, s.body)
